@@ -22,6 +22,12 @@ CHECKS = {
         note="Value alphabet: 6 variable definitions (3 tables rotated by VERIF_SEED); at most 3 variables alive; depth bound as reported in the evidence; states are merged on a canonical form that includes the name-mangled caches.",
         technique="explicit-state BFS over operation histories of the real object (bounded depth), invariant checked in every state",
     ),
+    "C03": dict(
+        engine="E2-product", category="exploration",
+        text="Deviation-bounded exhaustive enumeration of driver executions and 2-execution histories: all 21 optimization and 30 DOE algorithms of the factories x budget N in {1,2,3,5,12} x 10 problem classes (unconstrained, inequality, equality, NaN objective, NaN + constraint, raising constraint, linear, mixed-integer, MILP, bi-objective) with default settings, then <= 1 (quick) / <= 2 (thorough) deviations over normalize_design_space, use_database, round_ints, reset_iteration_counters, store_jacobian, differentiation, the stop criterion forced to fire first (budget, ftol, xtol, max_time under a virtual clock, KKT) and DOE-only axes (eval_jac, n_processes), then ordered pairs of executions on one problem with and without counter reset; counters inside the ORIGINAL callables record the distinct physical points really evaluated; per execution: new entries <= N, distinct points <= N, no exception for budget / tolerance / time / NaN stops, a result with a message; DOEs: keys = the distinct samples in generation order, each evaluated once, a failing sample only loses its own entry.",
+        note="Third-party optimizers are black boxes (the check bounds what they may evaluate); 2-variable problems, 3 value tables by VERIF_SEED; unsuitable (algorithm, problem) pairs are refused by the libraries themselves and counted; composite algorithms are held to their documented per-level budgets; NLOPT_NEWUOA cases that stall inside nlopt after a callback exception are capped at 15 s CPU and reported as a cap; use_database=False and MultiStart(normalize_design_space=True) are registered known findings.",
+        technique="deviation-bounded exhaustive enumeration of driver executions and execution pairs, counters in the user callables, virtual clock",
+    ),
     "C04": dict(
         engine="E2-product", category="exploration",
         text="Exhaustive within bounds: every hand-written database of <= 2 points (<= 4 unconstrained) over the per-point alphabet (objective missing / values / tie / NaN; scalar and 2-component inequality missing / satisfied / exactly on the tolerance / just above / violated / NaN; equality likewise) x problem shape x tolerances x min/max x standardized or original reporting x gradient mode x scalar representation, every database of 3 (quick) / 3-4 (thorough) points over reduced alphabets, every <= 4x2 Pareto matrix over {0,1,2} x feasibility flags and every 2-objective database of <= 3 points; the reported optimum / result / Pareto front are compared with an independent transcription of the selection rule of the statement (plain Python, no gemseo code).",
